@@ -468,14 +468,21 @@ func initRollingFileLogger(
 	}
 
 	f.appenders = appenders
-	for _, a := range f.appenders {
+	for i, a := range f.appenders {
 		if err := a.Start(); err != nil {
+			// Do not keep the files of the appenders started before it open
+			for _, started := range f.appenders[:i] {
+				started.Stop()
+			}
 			return err
 		}
 	}
 
 	// The inner logger owns the buffer and worker in async mode.
 	if err := logger.Start(); err != nil {
+		for _, a := range f.appenders {
+			a.Stop()
+		}
 		return err
 	}
 	f.logger = logger
